@@ -216,7 +216,9 @@ def triage_failure(pid, h, r, scratch, known):
     logd = os.path.dirname(r["log"])
     # concrete playback keeps more of the formula (measured: 6 GB -> > 12 GB on a csv harness): give the
     # re-run a larger memory cap than the verification run
-    hp = dict(h, mem_gb=max(28, 2 * h.get("mem_gb", 8)))
+    # (the Kani driver itself parses CBMC's whole JSON trace and died of "memory allocation failed" under 28 GB of
+    # address space on a process_posting harness)
+    hp = dict(h, mem_gb=max(48, 2 * h.get("mem_gb", 8)))
     pb = kani_run.run_harness(scratch, hp, logd, h["timeout"] * 2,
                               extra_args=["-Z", "concrete-playback", "--concrete-playback=print"], tag="-playback")
     with open(pb["log"], errors="replace") as f:
